@@ -9,6 +9,7 @@
 
 mod arena;
 mod c05;
+mod c08;
 mod c10;
 mod c12;
 mod c16;
@@ -84,6 +85,7 @@ fn main() {
         "c12" => "C12",
         "c05" => "C05",
         "c10" => "C10",
+        "c08" => "C08",
         "c16" => "C16",
         "digest" => "C17",
         "world" => "WORLD",
@@ -110,6 +112,7 @@ fn main() {
         "c12" => c12::run(&ctx),
         "c05" => c05::run(&ctx),
         "c10" => c10::run(&ctx),
+        "c08" => c08::run(&ctx),
         "c16" => c16::run(&ctx),
         "digest" => digest::run(&ctx),
         "world" => world::run(&ctx),
@@ -149,7 +152,8 @@ fn replay(ctx: &Ctx, file: &str) -> i32 {
         "C05" => c05::replay_body(&body),
         "C10" => c10::replay_body(&body),
         "C16" => c16::replay_body(&body),
-        "C01" | "C09" | "C11" | "C13" => world::replay_body(&body),
+        "C01" | "C06" | "C09" | "C11" | "C13" => world::replay_body(&body),
+        "C08" => c08::replay_body(&body),
         _ => harness_error("replay: unknown property in file"),
     };
     match got {
